@@ -822,6 +822,24 @@ impl<'a> VisitMut for Norm<'a> {
                             }
                             if !done { self.errors.push(format!("`.or_insert(..)` chain outside R-MAP in {}", self.fname)); }
                         }
+                        // R-MAP(filter-eta): `o.filter(|&v| f(v))` with `f` a local FnMut -> `vx_opt_filter_with(o, &mut f)`
+                        // (Verus has no closures capturing `&mut`; the shim's body is this very closure)
+                        "filter" if mc.args.len() == 1 => {
+                            if let Some(Expr::Closure(cl)) = mc.args.first() {
+                                if cl.inputs.len() == 1 {
+                                    if let (Pat::Reference(pr), Expr::Call(call)) = (&cl.inputs[0], &*cl.body) {
+                                        if let (Pat::Ident(pi), Expr::Path(fp)) = (&*pr.pat, &*call.func) {
+                                            let arg_is_param = call.args.len() == 1 && ts(&call.args[0]) == pi.ident.to_string();
+                                            if let (true, Some(f)) = (arg_is_param, fp.path.get_ident()) {
+                                                let recv = &mc.receiver;
+                                                replace = Some(parse_quote!(vx_opt_filter_with(#recv, &mut #f)));
+                                                self.bump("R-MAP(filter-eta)");
+                                            }
+                                        }
+                                    }
+                                }
+                            }
+                        }
                         "extend" if mc.args.len() == 1 => {
                             mc.method = Ident::new("vx_extend", mc.method.span());
                             self.bump("R-STD");
